@@ -330,6 +330,15 @@ def same(a, b) -> bool:
     return a == b
 
 
+def serialize_is_exact(msg) -> bool:
+    """serialize(msg) == msg.model_dump() + {_type, _ns}, with the same runtime types (nan == nan)."""
+    from openpectus.protocol.serialization import serialize
+    d = dict(serialize(msg))
+    if d.pop("_type", None) != type(msg).__qualname__ or d.pop("_ns", None) != type(msg).__module__:
+        return False
+    return same(d, msg.model_dump())
+
+
 def walk(v):
     from pydantic import BaseModel
     yield v
@@ -686,10 +695,13 @@ def run(ctx: Check) -> int:
             what = ("rejected on arrival" if r[0] == "err" else
                     f"raised {r[1]}" if r[0] == "exc" else
                     "came back with another type" if type(r[1]) is not type(m) else "came back changed")
-            if has_nonfinite(m):
-                key = K_NONFINITE
-            elif has_numkey(m):
-                key = K_NUMKEY
+            if has_nonfinite(m) or has_numkey(m):
+                # site of the loss: the recorded findings lose the value in the JSON transport; serialize() itself
+                # must still hand over exactly model_dump() + envelope
+                key = K_NONFINITE if has_nonfinite(m) else K_NUMKEY
+                if not serialize_is_exact(m):
+                    key += ":already-in-serialize"
+                    what += " (serialize() had already changed the value before any transport)"
             else:
                 key = f"roundtrip-mismatch:{type(m).__qualname__}"
             ctx.fail(Failure(key, c, f"{type(m).__qualname__} {what}: sent {m!r:.300}"))
@@ -749,6 +761,7 @@ def replay(obj) -> int:
         print("received :", (repr(r[1]) if r[0] == "ok" else r)[:1500] if r[0] == "ok" else r)
         ok = r[0] == "ok" and type(r[1]) is type(m) and same(r[1], m)
         print("unchanged and same type:", ok)
+        print("serialize(msg) == model_dump() + envelope (loss, if any, is in the transport):", serialize_is_exact(m))
         return 0 if ok else 1
     if "j" in c:
         r = impl_deserialize(c["j"])
